@@ -7,6 +7,12 @@ VERIF = os.path.dirname(os.path.dirname(os.path.abspath(__file__)))
 KNOWN_FILE = os.path.join(VERIF, "known_findings.json")
 
 
+# rules whose verdict is computed by an engine in a semantic domain wherever they are emitted from: resolved pool
+# sites and consumers (P*), exception / path-class flow (W*, X*), scoped loop-state lints, level-loop ranges
+SEMANTIC_RULES = {"P1", "P2", "P3", "P3-GLOBALS", "P3-ARG-MUTATION", "P3-MODULE-REF", "P7", "X1", "X2", "X3",
+                  "W0", "W1", "W2", "W3", "LOOP-STATE", "LEVEL-RANGE", "U1", "U2", "U4", "U5"}
+
+
 class Ctx:
     """Collects rule-instance results for one property check."""
 
@@ -25,9 +31,16 @@ class Ctx:
         self.results.append(dict(rule=rule, site=site, key=key, verdict="ok",
                                  witness=what, objects=objects))
 
-    def finding(self, rule, site, what, key="", objects=None, where=None):
+    def finding(self, rule, site, what, key="", objects=None, where=None, semantic=False):
+        """semantic=True: the verdict was computed in a semantic domain (interpreter events, polynomials, path
+        classes, resolved pool sites, scoped lints) and holds whatever the statement structure of the function is.
+        Otherwise the rule compares the *shape* of statements with the shape it expects; such a rule is decisive only
+        where the function still has the statement structure of the reference tree (leaves may differ) — on a
+        restructured function it abstains (see finish())."""
+        if not semantic and rule.split(".", 1)[-1] in SEMANTIC_RULES:
+            semantic = True
         self.results.append(dict(rule=rule, site=site, key=key, verdict="finding",
-                                 witness=what, objects=objects, where=where))
+                                 witness=what, objects=objects, where=where, semantic=semantic))
 
     def unknown(self, rule, site, what, key="", where=None):
         """the construct the rule examines is outside the domain the rule can decide (an idiom the evaluators do not
@@ -42,7 +55,7 @@ class Ctx:
         if cond:
             self.ok(rule, site, what_ok, key, objects)
         elif decidable:
-            self.finding(rule, site, what_bad or ("NOT: " + what_ok), key, objects, where)
+            self.finding(rule, site, what_bad or ("NOT: " + what_ok), key, objects, where, semantic=True)
         else:
             self.unknown(rule, site, (why_unknown or "construct not recognised") + ": " + (what_bad or what_ok), key, where)
         return cond
@@ -50,11 +63,11 @@ class Ctx:
     def info(self, rule, site, what, key=""):
         self.results.append(dict(rule=rule, site=site, key=key, verdict="info", witness=what))
 
-    def check(self, cond, rule, site, what_ok, what_bad=None, key="", objects=None, where=None):
+    def check(self, cond, rule, site, what_ok, what_bad=None, key="", objects=None, where=None, semantic=False):
         if cond:
             self.ok(rule, site, what_ok, key, objects)
         else:
-            self.finding(rule, site, what_bad or ("NOT: " + what_ok), key, objects, where)
+            self.finding(rule, site, what_bad or ("NOT: " + what_ok), key, objects, where, semantic)
         return cond
 
     def assume(self, text):
@@ -74,6 +87,37 @@ def load_known():
         return []
     with open(KNOWN_FILE) as fh:
         return json.load(fh)["findings"]
+
+
+# a shape rule stays decisive while the function is within this many added / removed / split / merged statements of
+# the reference shape (small edits); beyond it the function has been rewritten and the rule abstains
+DRIFT_TOLERANCE = 3
+
+
+def site_drift(prog, site):
+    """None/0 when the function named by the site has the statement structure of the reference tree; otherwise a
+    short description (number of statements that differ, or 'new function')"""
+    if "::" not in (site or ""):
+        return None
+    rel, rest = site.split("::", 1)
+    m = prog.modules.get(rel)
+    if m is None:
+        return None
+    parts = rest.split("::")
+    for k in range(len(parts), 0, -1):
+        q = "::".join(parts[:k]).split("#")[0]
+        if q in m.drift:
+            d = m.drift[q]
+            if d is None:
+                return "function absent from the reference"
+            return f"{d} statements differ" if d > DRIFT_TOLERANCE else None
+        if q in m.classes:
+            ds = [v for kq, v in m.drift.items() if kq.startswith(q + ".")]
+            if any(v is None for v in ds):
+                return "class has methods absent from the reference"
+            tot = sum(ds)
+            return f"{tot} statements differ in the class" if tot > DRIFT_TOLERANCE else None
+    return None
 
 
 def fid(r):
@@ -101,7 +145,19 @@ def finish(ctx, explanation, trusted_base, level="other"):
     unknowns = [r for r in ctx.results if r["verdict"] == "unknown"]
     violations, knowns = [], []
     for r in findings:
-        (knowns if fid(r) in known_open else violations).append(r)
+        if fid(r) in known_open:
+            knowns.append(r)
+            continue
+        d = None if r.get("semantic") else site_drift(ctx.prog, r["site"])
+        if d:
+            # a shape rule on a restructured function: abstain
+            r["verdict"] = "unknown"
+            r["witness"] = (f"shape rule on a function whose statement structure differs from the reference tree "
+                            f"({d}): not decided — " + r["witness"])
+            unknowns.append(r)
+        else:
+            violations.append(r)
+    findings = [r for r in findings if r["verdict"] == "finding"]
     evdir = os.environ.get("VERIF_EVIDENCE_DIR") or os.path.join(VERIF, "evidence")
     os.makedirs(evdir, exist_ok=True)
     rdir = os.path.join(evdir, "replay")
